@@ -4,7 +4,7 @@ Oracle: own Dijkstra / BFS levels on the generated digraph (exact integer arithm
 import heapq
 
 PROP = "C05"
-CASES = {"quick": 4000, "thorough": 100000}
+CASES = {"quick": 4000, "thorough": 300000}
 CASE_TIMEOUT = 30
 REQUIRED = ["astar_calls", "bfs_calls", "paths_validated", "none_results_validated"]
 RULE = ("random digraphs (1-12 nodes, integer costs 0..5, zero-cost edges/cycles, self-loops, several or "
